@@ -101,14 +101,14 @@ var c12aTheEnv *c12aEnv
 
 var c12aEmptyCodeHash = crypto.Keccak256Hash(nil)
 
-type fataler interface {
+type c12aFataler interface {
 	Fatalf(string, ...any)
 }
 
 // c12aGetEnv builds (once per process) the shared trie database and the committed "rich"
 // pre-state: A = contract (balance 3, nonce 1, code, slot0 = v1, storage size 1), B = funded EOA.
 // Trie nodes and code are content addressed, so sharing the database between cases is safe.
-func c12aGetEnv(t fataler) *c12aEnv {
+func c12aGetEnv(t c12aFataler) *c12aEnv {
 	if c12aTheEnv != nil {
 		return c12aTheEnv
 	}
@@ -157,70 +157,72 @@ func c12aGetEnv(t fataler) *c12aEnv {
 
 // ---- ops --------------------------------------------------------------------------------------
 
-type opKind uint8
+type c12aOpKind uint8
 
 const (
-	opCreate opKind = iota
-	opAddBal
-	opSubBal
-	opSetBal
-	opSetNonce
-	opSetCode
-	opSetState
-	opSetTransient
-	opSuicide
-	opAddLog
-	opAddRefund
-	opSubRefund
-	opALAddr
-	opALSlot
-	opPreimage
-	opSnapshot
-	opRevert // v = j: revert to the j-th youngest live snapshot
-	opFinalise
-	opPrepare
-	opIRoot
-	opCommitReopen
-	nOpKinds
+	c12aOpCreate c12aOpKind = iota
+	c12aOpAddBal
+	c12aOpSubBal
+	c12aOpSetBal
+	c12aOpSetNonce
+	c12aOpSetCode
+	c12aOpSetState
+	c12aOpSetTransient
+	c12aOpSuicide
+	c12aOpAddLog
+	c12aOpAddRefund
+	c12aOpSubRefund
+	c12aOpALAddr
+	c12aOpALSlot
+	c12aOpPreimage
+	c12aOpSnapshot
+	c12aOpRevert // v = j: revert to the j-th youngest live snapshot
+	c12aOpFinalise
+	c12aOpPrepare
+	c12aOpIRoot
+	c12aOpCommitReopen
+	c12aNOpKinds
 )
 
-var opKindName = [nOpKinds]string{"create", "addbal", "subbal", "setbal", "setnonce", "setcode", "setstate", "settransient",
+var c12aOpKindName = [c12aNOpKinds]string{"create", "addbal", "subbal", "setbal", "setnonce", "setcode", "setstate", "settransient",
 	"suicide", "addlog", "addrefund", "subrefund", "aladdr", "alslot", "preimage", "snapshot", "revert", "finalise", "prepare",
 	"iroot", "commitreopen"}
 
-func (k opKind) isBoundary() bool { return k == opFinalise || k == opIRoot || k == opCommitReopen }
-func (k opKind) isMutation() bool {
-	return k != opSnapshot && k != opRevert && k != opPrepare && !k.isBoundary()
+func (k c12aOpKind) isBoundary() bool {
+	return k == c12aOpFinalise || k == c12aOpIRoot || k == c12aOpCommitReopen
+}
+func (k c12aOpKind) isMutation() bool {
+	return k != c12aOpSnapshot && k != c12aOpRevert && k != c12aOpPrepare && !k.isBoundary()
 }
 
 // op: a = address index, s = slot index, v = value index / amount / nonce / code index / depth.
-type op struct {
-	k       opKind
+type c12aOp struct {
+	k       c12aOpKind
 	a, s, v int
 }
 
-func (o op) String() string {
-	n := opKindName[o.k]
+func (o c12aOp) String() string {
+	n := c12aOpKindName[o.k]
 	switch o.k {
-	case opCreate:
+	case c12aOpCreate:
 		return fmt.Sprintf("%s %s %s value=%d", n, c12aAddrName[o.a], [2]string{"via-call", "via-create"}[o.s], o.v)
-	case opSuicide, opALAddr:
+	case c12aOpSuicide, c12aOpALAddr:
 		return n + " " + c12aAddrName[o.a]
-	case opAddBal, opSubBal, opSetBal, opSetNonce, opSetCode:
+	case c12aOpAddBal, c12aOpSubBal, c12aOpSetBal, c12aOpSetNonce, c12aOpSetCode:
 		return fmt.Sprintf("%s %s %d", n, c12aAddrName[o.a], o.v)
-	case opSetState, opSetTransient:
+	case c12aOpSetState, c12aOpSetTransient:
 		return fmt.Sprintf("%s %s s%d=v%d", n, c12aAddrName[o.a], o.s, o.v)
-	case opALSlot:
+	case c12aOpALSlot:
 		return fmt.Sprintf("%s %s s%d", n, c12aAddrName[o.a], o.s)
-	case opAddLog:
+	case c12aOpAddLog:
 		return fmt.Sprintf("%s %s #%d", n, c12aAddrName[o.a], o.v)
-	case opAddRefund, opSubRefund, opPreimage, opRevert:
+	case c12aOpAddRefund, c12aOpSubRefund, c12aOpPreimage, c12aOpRevert:
 		return fmt.Sprintf("%s %d", n, o.v)
 	}
 	return n
 }
 
-func opsStrings(seq []op) []string {
+func c12aOpsStrings(seq []c12aOp) []string {
 	out := make([]string, len(seq))
 	for i, o := range seq {
 		out[i] = o.String()
@@ -232,36 +234,36 @@ func opsStrings(seq []op) []string {
 // and on whether IntermediateRoot has been taken on this StateDB (rooted): every caller in the
 // repository takes the root at the very end of a block and then only commits / discards the
 // StateDB, so after "iroot" only commit+reopen may follow.
-func structOK(o op, live int, rooted bool, maxDepth int) bool {
+func c12aStructOK(o c12aOp, live int, rooted bool, maxDepth int) bool {
 	if rooted {
-		return o.k == opCommitReopen
+		return o.k == c12aOpCommitReopen
 	}
 	switch o.k {
-	case opSnapshot:
+	case c12aOpSnapshot:
 		return live < maxDepth
-	case opRevert:
+	case c12aOpRevert:
 		return o.v < live
-	case opPrepare:
+	case c12aOpPrepare:
 		return live == 0
 	}
 	return true
 }
 
-func nextRooted(o op, rooted bool) bool {
+func c12aNextRooted(o c12aOp, rooted bool) bool {
 	switch o.k {
-	case opIRoot:
+	case c12aOpIRoot:
 		return true
-	case opCommitReopen:
+	case c12aOpCommitReopen:
 		return false
 	}
 	return rooted
 }
 
-func nextLive(o op, live int) int {
+func c12aNextLive(o c12aOp, live int) int {
 	switch {
-	case o.k == opSnapshot:
+	case o.k == c12aOpSnapshot:
 		return live + 1
-	case o.k == opRevert:
+	case o.k == c12aOpRevert:
 		return live - o.v - 1
 	case o.k.isBoundary():
 		return 0
@@ -270,18 +272,18 @@ func nextLive(o op, live int) int {
 }
 
 // span describes one RevertToSnapshot of a sequence: ops[from] is the Snapshot, ops[to] the revert.
-type span struct{ from, to int }
+type c12aSpan struct{ from, to int }
 
 // analyse returns the reverted spans (outermost only; nested reverted spans inside a reverted
 // span are contained in it) and the shadow sequence with those spans removed.
-func analyse(seq []op) (spans []span, shadow []op) {
+func c12aAnalyse(seq []c12aOp) (spans []c12aSpan, shadow []c12aOp) {
 	var stack []int
 	removed := make([]bool, len(seq))
 	for i, o := range seq {
 		switch {
-		case o.k == opSnapshot:
+		case o.k == c12aOpSnapshot:
 			stack = append(stack, i)
-		case o.k == opRevert:
+		case o.k == c12aOpRevert:
 			from := stack[len(stack)-1-o.v]
 			stack = stack[:len(stack)-1-o.v]
 			// drop spans nested in this one
@@ -291,7 +293,7 @@ func analyse(seq []op) (spans []span, shadow []op) {
 					keep = append(keep, sp)
 				}
 			}
-			spans = append(keep, span{from, i})
+			spans = append(keep, c12aSpan{from, i})
 			for j := from; j <= i; j++ {
 				removed[j] = true
 			}
@@ -309,7 +311,7 @@ func analyse(seq []op) (spans []span, shadow []op) {
 
 // ---- dump D(s) --------------------------------------------------------------------------------
 
-type acctD struct {
+type c12aAcctD struct {
 	Exists, Empty, Suicided bool
 	Balance, Size           string
 	Nonce                   uint64
@@ -318,8 +320,8 @@ type acctD struct {
 	State, Committed        [c12aNSlot]common.Hash
 }
 
-type dumpD struct {
-	Acct      [c12aNAddr]acctD
+type c12aDumpD struct {
+	Acct      [c12aNAddr]c12aAcctD
 	Refund    uint64
 	Logs      string
 	Preimages string
@@ -331,15 +333,15 @@ type dumpD struct {
 
 // commitD is what a caller obtains by ending the transaction and the block at this point:
 // Finalize(true), IntermediateRoot(true), Commit(true), and the state re-read from the new root.
-type commitD struct {
+type c12aCommitD struct {
 	Root, CommitRoot common.Hash
 	TrieSize         string
-	After            dumpD // getters after Finalize + IntermediateRoot on the state itself
-	Reopened         dumpD // getters on a fresh StateDB opened at the committed root
+	After            c12aDumpD // getters after Finalize + IntermediateRoot on the state itself
+	Reopened         c12aDumpD // getters on a fresh StateDB opened at the committed root
 	Err              string
 }
 
-func readDump(s *state.StateDB, nAddr int, thashes []common.Hash) (d dumpD) {
+func c12aReadDump(s *state.StateDB, nAddr int, thashes []common.Hash) (d c12aDumpD) {
 	for i := 0; i < nAddr; i++ {
 		a := c12aAddr[i]
 		ad := &d.Acct[i]
@@ -387,9 +389,9 @@ func readDump(s *state.StateDB, nAddr int, thashes []common.Hash) (d dumpD) {
 }
 
 // takeCommit ends the history here the way the block processor does (destructive).
-func takeCommit(r *runner, persist bool) *commitD {
+func c12aTakeCommit(r *c12aRunner, persist bool) *c12aCommitD {
 	env, s, nAddr, thashes := r.env, r.s, r.nAddr, r.thashes
-	c := &commitD{}
+	c := &c12aCommitD{}
 	var size *big.Int
 	if r.rootedSize != nil { // the history ended with "iroot": that root and size are the recorded ones
 		c.Root, size = r.rootedRoot, r.rootedSize
@@ -399,7 +401,7 @@ func takeCommit(r *runner, persist bool) *commitD {
 		size = new(big.Int).Set(s.GetQuaiTrieSize()) // the value the header records (QuaiStateSize)
 	}
 	c.TrieSize = size.String()
-	c.After = readDump(s, nAddr, thashes)
+	c.After = c12aReadDump(s, nAddr, thashes)
 	if !persist {
 		if e := s.Error(); e != nil {
 			c.Err = "dberr: " + e.Error()
@@ -422,15 +424,15 @@ func takeCommit(r *runner, persist bool) *commitD {
 		c.Err += " reopen: " + err.Error()
 		return c
 	}
-	c.Reopened = readDump(ns, nAddr, nil)
+	c.Reopened = c12aReadDump(ns, nAddr, nil)
 	return c
 }
 
-type fieldDiff struct{ kind, name, before, after string }
+type c12aFieldDiff struct{ kind, name, before, after string }
 
-func diffDumpD(prefix string, nAddr int, a, b *dumpD, out *[]fieldDiff) {
+func c12aDiffDumpD(prefix string, nAddr int, a, b *c12aDumpD, out *[]c12aFieldDiff) {
 	add := func(kind, name string, x, y any) {
-		*out = append(*out, fieldDiff{prefix + kind, prefix + name, fmt.Sprint(x), fmt.Sprint(y)})
+		*out = append(*out, c12aFieldDiff{prefix + kind, prefix + name, fmt.Sprint(x), fmt.Sprint(y)})
 	}
 	for i := 0; i < nAddr; i++ {
 		x, y, n := &a.Acct[i], &b.Acct[i], "acct["+c12aAddrName[i]+"]."
@@ -489,67 +491,67 @@ func diffDumpD(prefix string, nAddr int, a, b *dumpD, out *[]fieldDiff) {
 
 // diffCommit lists the differing fields, most specific first (the root differs whenever anything
 // committed differs, so it comes last).
-func diffCommit(nAddr int, a, b *commitD) []fieldDiff {
-	var out []fieldDiff
-	diffDumpD("final.", nAddr, &a.After, &b.After, &out)
-	diffDumpD("reopened.", nAddr, &a.Reopened, &b.Reopened, &out)
+func c12aDiffCommit(nAddr int, a, b *c12aCommitD) []c12aFieldDiff {
+	var out []c12aFieldDiff
+	c12aDiffDumpD("final.", nAddr, &a.After, &b.After, &out)
+	c12aDiffDumpD("reopened.", nAddr, &a.Reopened, &b.Reopened, &out)
 	if a.TrieSize != b.TrieSize {
-		out = append(out, fieldDiff{"final.triesize", "quaiTrieSize after IntermediateRoot", a.TrieSize, b.TrieSize})
+		out = append(out, c12aFieldDiff{"final.triesize", "quaiTrieSize after IntermediateRoot", a.TrieSize, b.TrieSize})
 	}
 	if a.Err != b.Err {
-		out = append(out, fieldDiff{"final.dberr", "Error()/Commit error", a.Err, b.Err})
+		out = append(out, c12aFieldDiff{"final.dberr", "Error()/Commit error", a.Err, b.Err})
 	}
 	if a.Root != b.Root {
-		out = append(out, fieldDiff{"final.root", "IntermediateRoot(true)", a.Root.Hex(), b.Root.Hex()})
+		out = append(out, c12aFieldDiff{"final.root", "IntermediateRoot(true)", a.Root.Hex(), b.Root.Hex()})
 	}
 	if a.CommitRoot != b.CommitRoot {
-		out = append(out, fieldDiff{"final.commitroot", "Commit(true) root", a.CommitRoot.Hex(), b.CommitRoot.Hex()})
+		out = append(out, c12aFieldDiff{"final.commitroot", "Commit(true) root", a.CommitRoot.Hex(), b.CommitRoot.Hex()})
 	}
 	return out
 }
 
-func diffDirect(nAddr int, a, b *dumpD) []fieldDiff {
-	var out []fieldDiff
-	diffDumpD("", nAddr, a, b, &out)
+func c12aDiffDirect(nAddr int, a, b *c12aDumpD) []c12aFieldDiff {
+	var out []c12aFieldDiff
+	c12aDiffDumpD("", nAddr, a, b, &out)
 	return out
 }
 
 // ---- runner -----------------------------------------------------------------------------------
 
-type initState struct {
+type c12aInitState struct {
 	name   string
 	rich   bool
-	prefix []op
+	prefix []c12aOp
 }
 
-var c12aInits = []initState{
+var c12aInits = []c12aInitState{
 	{name: "empty"},
 	{name: "rich", rich: true},
 	// rich, then inside the current block: A self-destructed and finalised (deleted, not yet in the
 	// trie), B touched with a pending storage write.
-	{name: "pending", rich: true, prefix: []op{{k: opSuicide, a: 0}, {k: opSetState, a: 1, s: 1, v: 2}, {k: opAddBal, a: 1, v: 1}, {k: opFinalise}}},
+	{name: "pending", rich: true, prefix: []c12aOp{{k: c12aOpSuicide, a: 0}, {k: c12aOpSetState, a: 1, s: 1, v: 2}, {k: c12aOpAddBal, a: 1, v: 1}, {k: c12aOpFinalise}}},
 }
 
-type snapRec struct {
+type c12aSnapRec struct {
 	id     int
 	at     int
-	before *dumpD
+	before *c12aDumpD
 	// poisoned: a Suicide of an account with a non-zero storage-size counter was executed while
 	// this snapshot was live (known finding fpSuicideSize)
 	poisoned bool
 }
 
-type violationInfo struct {
+type c12aViolationInfo struct {
 	fp, msg string
-	diffs   []fieldDiff
+	diffs   []c12aFieldDiff
 }
 
-type runner struct {
+type c12aRunner struct {
 	env     *c12aEnv
 	s       *state.StateDB
 	nAddr   int
 	observe bool // take D at every Snapshot and compare after every RevertToSnapshot
-	live    []snapRec
+	live    []c12aSnapRec
 	txn     int
 	thashes []common.Hash
 	nLogs   int
@@ -565,7 +567,7 @@ type runner struct {
 	excluded  bool
 }
 
-func newRunner(env *c12aEnv, ini *initState, nAddr int, observe bool) (*runner, error) {
+func c12aNewRunner(env *c12aEnv, ini *c12aInitState, nAddr int, observe bool) (*c12aRunner, error) {
 	root, size := types.EmptyRootHash, big.NewInt(0)
 	if ini.rich {
 		root, size = env.richRoot, new(big.Int).Set(env.richSize)
@@ -574,7 +576,7 @@ func newRunner(env *c12aEnv, ini *initState, nAddr int, observe bool) (*runner, 
 	if err != nil {
 		return nil, err
 	}
-	r := &runner{env: env, s: s, nAddr: nAddr, observe: observe, thashes: []common.Hash{{}}}
+	r := &c12aRunner{env: env, s: s, nAddr: nAddr, observe: observe, thashes: []common.Hash{{}}}
 	for _, o := range ini.prefix {
 		if !r.apply(o) {
 			return nil, fmt.Errorf("init prefix op %v not applicable", o)
@@ -584,14 +586,14 @@ func newRunner(env *c12aEnv, ini *initState, nAddr int, observe bool) (*runner, 
 }
 
 // precond is the state-dependent part of the caller contract.
-func (r *runner) precond(o op) bool {
+func (r *c12aRunner) precond(o c12aOp) bool {
 	a := c12aAddr[o.a]
 	switch o.k {
-	case opSubBal:
+	case c12aOpSubBal:
 		return r.s.GetBalance(a).Cmp(big.NewInt(int64(o.v))) >= 0
-	case opSubRefund:
+	case c12aOpSubRefund:
 		return r.s.GetRefund() >= uint64(o.v)
-	case opCreate:
+	case c12aOpCreate:
 		if o.s == 0 { // evm.Call on a missing account
 			return !r.s.Exist(a) && (o.v > 0 || o.a == c12aRipemd)
 		}
@@ -602,62 +604,62 @@ func (r *runner) precond(o op) bool {
 }
 
 // apply executes one non-snapshot op; false = precondition not met (nothing executed).
-func (r *runner) apply(o op) bool {
+func (r *c12aRunner) apply(o c12aOp) bool {
 	if !r.precond(o) {
 		return false
 	}
 	s, a := r.s, c12aAddr[o.a]
 	switch o.k {
-	case opCreate:
+	case c12aOpCreate:
 		s.CreateAccount(a)
 		if o.s == 1 {
 			s.SetNonce(a, 1)
 		}
 		s.AddBalance(a, big.NewInt(int64(o.v)))
-	case opAddBal:
+	case c12aOpAddBal:
 		s.AddBalance(a, big.NewInt(int64(o.v)))
-	case opSubBal:
+	case c12aOpSubBal:
 		s.SubBalance(a, big.NewInt(int64(o.v)))
-	case opSetBal:
+	case c12aOpSetBal:
 		s.SetBalance(a, big.NewInt(int64(o.v)))
-	case opSetNonce:
+	case c12aOpSetNonce:
 		s.SetNonce(a, uint64(o.v))
-	case opSetCode:
+	case c12aOpSetCode:
 		s.SetCode(a, c12aCode[o.v])
-	case opSetState:
+	case c12aOpSetState:
 		s.SetState(a, c12aSlot[o.s], c12aVal[o.v])
-	case opSetTransient:
+	case c12aOpSetTransient:
 		s.SetTransientState(a, c12aSlot[o.s], c12aVal[o.v])
-	case opSuicide:
+	case c12aOpSuicide:
 		s.Suicide(a)
-	case opAddLog:
+	case c12aOpAddLog:
 		s.AddLog(&types.Log{Address: c12aAddrExt[o.a], Topics: []common.Hash{c12aSlot[o.v%c12aNSlot]}, Data: []byte{byte(o.v)}})
-	case opAddRefund:
+	case c12aOpAddRefund:
 		s.AddRefund(uint64(o.v))
-	case opSubRefund:
+	case c12aOpSubRefund:
 		s.SubRefund(uint64(o.v))
-	case opALAddr:
+	case c12aOpALAddr:
 		s.AddAddressToAccessList(a.Bytes20())
-	case opALSlot:
+	case c12aOpALSlot:
 		s.AddAddressToAccessList(a.Bytes20())
 		s.AddSlotToAccessList(a.Bytes20(), c12aSlot[o.s])
-	case opPreimage:
+	case c12aOpPreimage:
 		p := c12aPre[o.v%len(c12aPre)]
 		s.AddPreimage(crypto.Keccak256Hash(p), p)
-	case opFinalise:
+	case c12aOpFinalise:
 		s.Finalize(true)
 		r.live = r.live[:0]
-	case opPrepare:
+	case c12aOpPrepare:
 		r.txn++
 		th := common.Hash{30: byte(r.txn >> 8), 31: byte(r.txn)}
 		th[0] = 0x7c
 		r.thashes = append(r.thashes, th)
 		s.Prepare(th, r.txn)
-	case opIRoot:
+	case c12aOpIRoot:
 		r.rootedRoot = s.IntermediateRoot(true)
 		r.rootedSize = new(big.Int).Set(s.GetQuaiTrieSize())
 		r.live = r.live[:0]
-	case opCommitReopen:
+	case c12aOpCommitReopen:
 		// block end as in the repository: ValidateState takes IntermediateRoot and the header
 		// records GetQuaiTrieSize() at that moment; then Commit; the next block opens a fresh
 		// StateDB at (root, recorded size).
@@ -685,18 +687,18 @@ func (r *runner) apply(o op) bool {
 }
 
 // step executes op i of a history including Snapshot / Revert with the revert oracle.
-func (r *runner) step(i int, o op, seq []op) (ok bool, viol *violationInfo) {
+func (r *c12aRunner) step(i int, o c12aOp, seq []c12aOp) (ok bool, viol *c12aViolationInfo) {
 	switch o.k {
-	case opSnapshot:
-		rec := snapRec{at: i}
+	case c12aOpSnapshot:
+		rec := c12aSnapRec{at: i}
 		if r.observe {
-			d := readDump(r.s, r.nAddr, r.thashes)
+			d := c12aReadDump(r.s, r.nAddr, r.thashes)
 			rec.before = &d
 		}
 		rec.id = r.s.Snapshot()
 		r.live = append(r.live, rec)
 		return true, nil
-	case opRevert:
+	case c12aOpRevert:
 		idx := len(r.live) - 1 - o.v
 		rec := r.live[idx]
 		if r.exclude && rec.poisoned {
@@ -704,20 +706,20 @@ func (r *runner) step(i int, o op, seq []op) (ok bool, viol *violationInfo) {
 			return false, nil
 		}
 		if r.observe {
-			if now := readDump(r.s, r.nAddr, r.thashes); now != *rec.before {
+			if now := c12aReadDump(r.s, r.nAddr, r.thashes); now != *rec.before {
 				r.effective = true
 			}
 		}
 		r.s.RevertToSnapshot(rec.id)
 		r.live = r.live[:idx]
 		if r.observe {
-			if after := readDump(r.s, r.nAddr, r.thashes); after != *rec.before {
-				return true, mkViolation("revert", seq, rec.at, i, diffDirect(r.nAddr, rec.before, &after))
+			if after := c12aReadDump(r.s, r.nAddr, r.thashes); after != *rec.before {
+				return true, c12aMkViolation("revert", seq, rec.at, i, c12aDiffDirect(r.nAddr, rec.before, &after))
 			}
 		}
 		return true, nil
 	}
-	if o.k == opSuicide && len(r.live) > 0 && r.poisonedSuicide(o) {
+	if o.k == c12aOpSuicide && len(r.live) > 0 && r.poisonedSuicide(o) {
 		for i := range r.live {
 			r.live[i].poisoned = true
 		}
@@ -725,9 +727,9 @@ func (r *runner) step(i int, o op, seq []op) (ok bool, viol *violationInfo) {
 	return r.apply(o), nil
 }
 
-func (k opKind) hasAddr() bool {
+func (k c12aOpKind) hasAddr() bool {
 	switch k {
-	case opCreate, opAddBal, opSubBal, opSetBal, opSetNonce, opSetCode, opSetState, opSetTransient, opSuicide, opALAddr, opALSlot:
+	case c12aOpCreate, c12aOpAddBal, c12aOpSubBal, c12aOpSetBal, c12aOpSetNonce, c12aOpSetCode, c12aOpSetState, c12aOpSetTransient, c12aOpSuicide, c12aOpALAddr, c12aOpALSlot:
 		return true
 	}
 	return false
@@ -735,7 +737,7 @@ func (k opKind) hasAddr() bool {
 
 // crossedKinds lists the mutation kinds inside seq[from..to]; with addr >= 0 only those that
 // name that address.
-func crossedKinds(seq []op, from, to, addr int) []string {
+func c12aCrossedKinds(seq []c12aOp, from, to, addr int) []string {
 	set := map[string]bool{}
 	for i := from; i <= to && i < len(seq); i++ {
 		o := seq[i]
@@ -745,7 +747,7 @@ func crossedKinds(seq []op, from, to, addr int) []string {
 		if addr >= 0 && (!o.k.hasAddr() || o.a != addr) {
 			continue
 		}
-		set[opKindName[o.k]] = true
+		set[c12aOpKindName[o.k]] = true
 	}
 	out := make([]string, 0, len(set))
 	for k := range set {
@@ -755,8 +757,8 @@ func crossedKinds(seq []op, from, to, addr int) []string {
 	return out
 }
 
-func mkViolation(oracle string, seq []op, from, to int, diffs []fieldDiff) *violationInfo {
-	v := &violationInfo{diffs: diffs}
+func c12aMkViolation(oracle string, seq []c12aOp, from, to int, diffs []c12aFieldDiff) *c12aViolationInfo {
+	v := &c12aViolationInfo{diffs: diffs}
 	kind, name := "unknown", "?"
 	if len(diffs) > 0 {
 		kind, name = diffs[0].kind, diffs[0].name
@@ -771,9 +773,9 @@ func mkViolation(oracle string, seq []op, from, to int, diffs []fieldDiff) *viol
 	}
 	x := "?"
 	if from >= 0 {
-		ks := crossedKinds(seq, from, to, addr)
+		ks := c12aCrossedKinds(seq, from, to, addr)
 		if len(ks) == 0 {
-			ks = crossedKinds(seq, from, to, -1)
+			ks = c12aCrossedKinds(seq, from, to, -1)
 		}
 		if len(ks) > 3 {
 			x = "many"
@@ -799,17 +801,17 @@ func mkViolation(oracle string, seq []op, from, to int, diffs []fieldDiff) *viol
 	return v
 }
 
-type caseResult struct {
+type c12aCaseResult struct {
 	invalidAt int // index of the first op whose precondition failed, -1 if the history is valid
-	viol      *violationInfo
+	viol      *c12aViolationInfo
 	effective bool
 	excluded  bool // the history reverts across the known finding and was not executed further
 }
 
 // commitOf executes a history without any intermediate observation on a fresh StateDB and ends
 // it with takeCommit. bad = index of the first op whose precondition failed (-1 = none).
-func commitOf(env *c12aEnv, ini *initState, nAddr int, seq []op, persist, exclude bool) (c *commitD, bad int, excluded bool) {
-	r, err := newRunner(env, ini, nAddr, false)
+func c12aCommitOf(env *c12aEnv, ini *c12aInitState, nAddr int, seq []c12aOp, persist, exclude bool) (c *c12aCommitD, bad int, excluded bool) {
+	r, err := c12aNewRunner(env, ini, nAddr, false)
 	if err != nil {
 		panic("HARNESS: " + err.Error())
 	}
@@ -819,24 +821,24 @@ func commitOf(env *c12aEnv, ini *initState, nAddr int, seq []op, persist, exclud
 			return nil, i, r.excluded
 		}
 	}
-	return takeCommit(r, persist), -1, false
+	return c12aTakeCommit(r, persist), -1, false
 }
 
 // shadowOracle compares the commitment of a history with the commitment of the history without
 // its reverted spans.
-func shadowOracle(env *c12aEnv, ini *initState, nAddr int, seq []op, spans []span, shadow []op, persist bool, memo map[string]*commitD, exclude bool) (viol *violationInfo, bad int, excluded bool) {
-	cm, bad, excluded := commitOf(env, ini, nAddr, seq, persist, exclude)
+func c12aShadowOracle(env *c12aEnv, ini *c12aInitState, nAddr int, seq []c12aOp, spans []c12aSpan, shadow []c12aOp, persist bool, memo map[string]*c12aCommitD, exclude bool) (viol *c12aViolationInfo, bad int, excluded bool) {
+	cm, bad, excluded := c12aCommitOf(env, ini, nAddr, seq, persist, exclude)
 	if bad >= 0 {
 		return nil, bad, excluded
 	}
-	var cs *commitD
+	var cs *c12aCommitD
 	key := ""
 	if memo != nil {
-		key = ini.name + "|" + strings.Join(opsStrings(shadow), ";")
+		key = ini.name + "|" + strings.Join(c12aOpsStrings(shadow), ";")
 		cs = memo[key]
 	}
 	if cs == nil {
-		cs, bad, _ = commitOf(env, ini, nAddr, shadow, persist, false)
+		cs, bad, _ = c12aCommitOf(env, ini, nAddr, shadow, persist, false)
 		if memo != nil && bad < 0 {
 			if len(memo) > 400000 {
 				clear(memo)
@@ -845,7 +847,7 @@ func shadowOracle(env *c12aEnv, ini *initState, nAddr int, seq []op, spans []spa
 		}
 	}
 	if bad >= 0 {
-		return &violationInfo{fp: "C12/A/shadow/precondition/x=" + opKindName[shadow[bad].k],
+		return &c12aViolationInfo{fp: "C12/A/shadow/precondition/x=" + c12aOpKindName[shadow[bad].k],
 			msg: fmt.Sprintf("op %q was applicable in the history with reverted spans but not in the history without them (shadow op %d)", shadow[bad].String(), bad)}, -1, false
 	}
 	if *cs != *cm {
@@ -853,12 +855,12 @@ func shadowOracle(env *c12aEnv, ini *initState, nAddr int, seq []op, spans []spa
 		if len(spans) > 0 {
 			from, to = spans[0].from, spans[len(spans)-1].to
 		}
-		return mkViolation("shadow", seq, from, to, diffCommit(nAddr, cs, cm)), -1, false
+		return c12aMkViolation("shadow", seq, from, to, c12aDiffCommit(nAddr, cs, cm)), -1, false
 	}
 	return nil, -1, false
 }
 
-func recoverRepoPanic(viol **violationInfo) {
+func c12aRecoverRepoPanic(viol **c12aViolationInfo) {
 	if p := recover(); p != nil {
 		msg := fmt.Sprint(p)
 		if strings.HasPrefix(msg, "HARNESS:") {
@@ -868,7 +870,7 @@ func recoverRepoPanic(viol **violationInfo) {
 		if i := strings.IndexAny(first, "\n:("); i > 0 {
 			first = first[:i]
 		}
-		*viol = &violationInfo{fp: "C12/A/panic/" + strings.TrimSpace(first), msg: "panic inside the repository while executing a contract-respecting history: " + msg}
+		*viol = &c12aViolationInfo{fp: "C12/A/panic/" + strings.TrimSpace(first), msg: "panic inside the repository while executing a contract-respecting history: " + msg}
 	}
 }
 
@@ -876,11 +878,11 @@ func recoverRepoPanic(viol **violationInfo) {
 // RevertToSnapshot; skipped when observe is false), unobserved + commitment, and the shadow
 // history + commitment (shadow oracle). A panic inside the repository while running a
 // contract-respecting history is reported as a violation.
-func runCase(env *c12aEnv, ini *initState, nAddr int, exclude bool, seq []op, spans []span, shadow []op, persist bool, memo map[string]*commitD, observe bool) (res caseResult) {
+func c12aRunCase(env *c12aEnv, ini *c12aInitState, nAddr int, exclude bool, seq []c12aOp, spans []c12aSpan, shadow []c12aOp, persist bool, memo map[string]*c12aCommitD, observe bool) (res c12aCaseResult) {
 	res.invalidAt = -1
-	defer recoverRepoPanic(&res.viol)
+	defer c12aRecoverRepoPanic(&res.viol)
 	if observe {
-		main, err := newRunner(env, ini, nAddr, true)
+		main, err := c12aNewRunner(env, ini, nAddr, true)
 		if err != nil {
 			panic("HARNESS: " + err.Error())
 		}
@@ -902,16 +904,16 @@ func runCase(env *c12aEnv, ini *initState, nAddr int, exclude bool, seq []op, sp
 		}
 		res.effective = main.effective
 		if err := main.s.Error(); err != nil {
-			res.viol = &violationInfo{fp: "C12/A/dberr", msg: "StateDB.Error() set by a contract-respecting history: " + err.Error()}
+			res.viol = &c12aViolationInfo{fp: "C12/A/dberr", msg: "StateDB.Error() set by a contract-respecting history: " + err.Error()}
 			return res
 		}
 	}
-	viol, bad, excluded := shadowOracle(env, ini, nAddr, seq, spans, shadow, persist, memo, exclude)
+	viol, bad, excluded := c12aShadowOracle(env, ini, nAddr, seq, spans, shadow, persist, memo, exclude)
 	switch {
 	case excluded:
 		res.excluded = true
 	case bad >= 0 && observe:
-		panic(fmt.Sprintf("HARNESS: history valid when observed but op %d (%v) not applicable unobserved: %v", bad, seq[bad], opsStrings(seq)))
+		panic(fmt.Sprintf("HARNESS: history valid when observed but op %d (%v) not applicable unobserved: %v", bad, seq[bad], c12aOpsStrings(seq)))
 	case bad >= 0:
 		res.invalidAt = bad
 	default:
@@ -921,36 +923,36 @@ func runCase(env *c12aEnv, ini *initState, nAddr int, exclude bool, seq []op, sp
 }
 
 // validStruct checks the state-independent part of the caller contract for a whole history.
-func validStruct(seq []op, maxDepth int) bool {
+func c12aValidStruct(seq []c12aOp, maxDepth int) bool {
 	live, rooted := 0, false
 	for _, o := range seq {
-		if !structOK(o, live, rooted, maxDepth) {
+		if !c12aStructOK(o, live, rooted, maxDepth) {
 			return false
 		}
-		live, rooted = nextLive(o, live), nextRooted(o, rooted)
+		live, rooted = c12aNextLive(o, live), c12aNextRooted(o, rooted)
 	}
 	return true
 }
 
 // minimise greedily deletes single ops and pairs of ops from a violating history while the same
 // fingerprint keeps being reported; used only to make the replay dump readable.
-func minimise(env *c12aEnv, ini *initState, nAddr int, seq []op, fp string) []op {
-	fails := func(c []op) bool {
-		if !validStruct(c, 1<<30) {
+func c12aMinimise(env *c12aEnv, ini *c12aInitState, nAddr int, seq []c12aOp, fp string) []c12aOp {
+	fails := func(c []c12aOp) bool {
+		if !c12aValidStruct(c, 1<<30) {
 			return false
 		}
-		sp, sh := analyse(c)
-		res := runCase(env, ini, nAddr, false, c, sp, sh, true, nil, true)
+		sp, sh := c12aAnalyse(c)
+		res := c12aRunCase(env, ini, nAddr, false, c, sp, sh, true, nil, true)
 		return res.invalidAt < 0 && res.viol != nil && res.viol.fp == fp
 	}
-	cur := append([]op(nil), seq...)
+	cur := append([]c12aOp(nil), seq...)
 	if !fails(cur) {
 		return nil
 	}
 	for changed := true; changed; {
 		changed = false
 		for i := 0; i < len(cur); i++ {
-			c := append(append([]op(nil), cur[:i]...), cur[i+1:]...)
+			c := append(append([]c12aOp(nil), cur[:i]...), cur[i+1:]...)
 			if fails(c) {
 				cur, changed = c, true
 				i--
@@ -958,7 +960,7 @@ func minimise(env *c12aEnv, ini *initState, nAddr int, seq []op, fp string) []op
 		}
 		for i := 0; i < len(cur) && !changed; i++ {
 			for j := i + 1; j < len(cur); j++ {
-				c := append([]op(nil), cur[:i]...)
+				c := append([]c12aOp(nil), cur[:i]...)
 				c = append(c, cur[i+1:j]...)
 				c = append(c, cur[j+1:]...)
 				if fails(c) {
@@ -972,20 +974,20 @@ func minimise(env *c12aEnv, ini *initState, nAddr int, seq []op, fp string) []op
 }
 
 // reportViolation funnels an oracle failure into stats.Violation.
-func reportViolation(t stats.TB, part string, ini *initState, seq, shadow []op, v *violationInfo) bool {
+func c12aReportViolation(t stats.TB, part string, ini *c12aInitState, seq, shadow []c12aOp, v *c12aViolationInfo) bool {
 	diffs := make([]string, len(v.diffs))
 	for i, d := range v.diffs {
 		diffs[i] = fmt.Sprintf("%s: %s -> %s", d.name, d.before, d.after)
 	}
 	dump := map[string]any{
-		"init": ini.name, "init_prefix": opsStrings(ini.prefix),
-		"ops": opsStrings(seq), "shadow_ops": opsStrings(shadow), "diff": diffs,
+		"init": ini.name, "init_prefix": c12aOpsStrings(ini.prefix),
+		"ops": c12aOpsStrings(seq), "shadow_ops": c12aOpsStrings(shadow), "diff": diffs,
 	}
-	msg := v.msg + " | init=" + ini.name + " ops=" + strings.Join(opsStrings(seq), "; ")
+	msg := v.msg + " | init=" + ini.name + " ops=" + strings.Join(c12aOpsStrings(seq), "; ")
 	if env := c12aTheEnv; env != nil && len(seq) > 4 && !stats.IsKnown(v.fp) {
-		if m := minimise(env, ini, c12aNAddr, seq, v.fp); m != nil && len(m) < len(seq) {
-			dump["minimised_ops"] = opsStrings(m)
-			msg += " | minimised=" + strings.Join(opsStrings(m), "; ")
+		if m := c12aMinimise(env, ini, c12aNAddr, seq, v.fp); m != nil && len(m) < len(seq) {
+			dump["minimised_ops"] = c12aOpsStrings(m)
+			msg += " | minimised=" + strings.Join(c12aOpsStrings(m), "; ")
 		}
 	}
 	return stats.Violation(t, part, v.fp, msg, dump)
@@ -996,18 +998,18 @@ func reportViolation(t stats.TB, part string, ini *initState, seq, shadow []op, 
 // fpSuicideSize is the fingerprint of the (so far only) confirmed StateDB-level defect: Suicide
 // sets stateObject.data.Size = 0 without a journal entry, so a reverted SELFDESTRUCT of a
 // contract with storage leaves Size = 0 (and a different account RLP / state root) behind.
-const fpSuicideSize = "C12/A/revert/acct.size/x=suicide"
+const c12aFpSuicideSize = "C12/A/revert/acct.size/x=suicide"
 
 // poisonedSuicide reports whether executing o now would be a Suicide of an account whose
 // storage-size counter is non-zero.
-func (r *runner) poisonedSuicide(o op) bool {
-	return o.k == opSuicide && r.s.Exist(c12aAddr[o.a]) && r.s.GetSize(c12aAddr[o.a]).Sign() != 0
+func (r *c12aRunner) poisonedSuicide(o c12aOp) bool {
+	return o.k == c12aOpSuicide && r.s.Exist(c12aAddr[o.a]) && r.s.GetSize(c12aAddr[o.a]).Sign() != 0
 }
 
 // labelsFor computes the label set and signature of an executed history.
-func labelsFor(ini *initState, seq []op, spans []span) (sig string, nontrivial bool, labels []string) {
+func c12aLabelsFor(ini *c12aInitState, seq []c12aOp, spans []c12aSpan) (sig string, nontrivial bool, labels []string) {
 	labels = append(labels, "init:"+ini.name)
-	crossed := map[opKind]bool{}
+	crossed := map[c12aOpKind]bool{}
 	var inside []string
 	for _, sp := range spans {
 		for i := sp.from + 1; i < sp.to; i++ {
@@ -1016,12 +1018,12 @@ func labelsFor(ini *initState, seq []op, spans []span) (sig string, nontrivial b
 				crossed[k] = true
 				nontrivial = true
 			}
-			inside = append(inside, opKindName[k])
+			inside = append(inside, c12aOpKindName[k])
 		}
 		inside = append(inside, "|")
 	}
 	for k := range crossed {
-		labels = append(labels, "x:"+opKindName[k])
+		labels = append(labels, "x:"+c12aOpKindName[k])
 	}
 	sort.Strings(labels[1:])
 	boundaryBefore, afterRevert, nested := false, false, false
@@ -1031,7 +1033,7 @@ func labelsFor(ini *initState, seq []op, spans []span) (sig string, nontrivial b
 		if o.k.isBoundary() {
 			seenBoundary = true
 		}
-		if o.k == opRevert {
+		if o.k == c12aOpRevert {
 			lastRevert = i
 			if seenBoundary {
 				boundaryBefore = true
